@@ -30,8 +30,11 @@ func NewIpnEndpoint(uri string) (e EndpointType, err error) {
 	// - node number: ASCII numeric digits between 1 and (2^64-1)
 	// - an ASCII dot
 	// - service number: ASCII numeric digits between 1 and (2^64-1)
+	//
+	// Numbers are written without leading zeros, so that every endpoint has exactly one textual form,
+	// the one printed by String: "ipn:01.1" is not another name for "ipn:1.1".
 
-	re := regexp.MustCompile("^" + ipnEndpointSchemeName + ":(\\d+)\\.(\\d+)$")
+	re := regexp.MustCompile("^" + ipnEndpointSchemeName + ":(0|[1-9]\\d*)\\.(0|[1-9]\\d*)$")
 	matches := re.FindStringSubmatch(uri)
 	if len(matches) != 3 {
 		err = fmt.Errorf("uri does not match an ipn endpoint")
